@@ -265,7 +265,7 @@ def run_chunk(ctx, n_programs, mode='plain'):
             if mm != real:
                 diff = {key: [mm[key], real[key]] for key in mm if mm[key] != real[key]}
                 ctx.disagree('core', {'yaml': r['yaml'], 'oracle': table, 'policy': policy, 'seed': seed, 'ops': ops,
-                                      'step': k, 'event': r['events'][k], 'events_so_far': r['events'][:k + 1]},
+                                      'prog': prog, 'step': k, 'event': r['events'][k], 'events_so_far': r['events'][:k + 1]},
                              {k2: v[0] for k2, v in diff.items()}, {k2: v[1] for k2, v in diff.items()})
                 break
         if ctx.rng.random() < 0.01:
